@@ -298,6 +298,7 @@ structure MethodRules (ps : List MParam) : Prop where
   oneArrOut : (ps.filter (isObjArr .out)).length ≤ 1
   noMixIn : ¬ (ps.any (isObjArr .inp) = true ∧ ps.any (isObjVal .inp) = true)
   noMixOut : ¬ (ps.any (isObjArr .out) = true ∧ ps.any (isObjVal .out) = true)
+  fits : (counts ps).fits15 = true
 
 /-- **(object-array rules)** a method passes the interface verifier only if it satisfies all
     documented parameter restrictions -/
@@ -310,11 +311,14 @@ theorem checkFunc_sound (f : MFunc) (h : checkFunc f = .ok ()) : MethodRules f.p
     split at h
     · simp at h
     · rename_i hmix
-      simp only [Bool.or_eq_true, Bool.and_eq_true, not_or, not_and] at hmix
-      simp only [Bool.false_or] at b1 b2 b3 b4
-      refine ⟨r, by simpa [b2n] using b5, by simpa [b2n] using b6, ?_, ?_⟩
-      · rintro ⟨h1, h2⟩; rw [← b1, ← b2] at *; exact absurd h2 (by simpa using hmix.1 h1)
-      · rintro ⟨h1, h2⟩; rw [← b3, ← b4] at *; exact absurd h2 (by simpa using hmix.2 h1)
+      split at h
+      · simp at h
+      · rename_i hfits
+        simp only [Bool.or_eq_true, Bool.and_eq_true, not_or, not_and] at hmix
+        simp only [Bool.false_or] at b1 b2 b3 b4
+        refine ⟨r, by simpa [b2n] using b5, by simpa [b2n] using b6, ?_, ?_, by simpa using hfits⟩
+        · rintro ⟨h1, h2⟩; rw [← b1, ← b2] at *; exact absurd h2 (by simpa using hmix.1 h1)
+        · rintro ⟨h1, h2⟩; rw [← b3, ← b4] at *; exact absurd h2 (by simpa using hmix.2 h1)
 
 /-! members: names -/
 
